@@ -520,6 +520,25 @@ def _verb(ctx, kids):
     ctx.facts['markup_ok'] = True
 
 
+def verb_single(name, content):
+    # \verb whose content is a single character sequence with a LaTeX meaning of its own
+    @reg(name, cls='verbatim')
+    def f(ctx, kids):
+        ctx.open('verb', ())
+        ctx.w('\\verb|')
+        ctx.copy(content)
+        ctx.w('|')
+        ctx.close()
+
+
+verb_single('verbdollar', '$')
+verb_single('verbbrace', '{')
+verb_single('verbclose', '}')
+verb_single('verbbslash', '\\\\')
+verb_single('verbtilde', '~')
+verb_single('verbbracket', ']')
+
+
 @reg('verbplus', cls='verbatim')
 def _verbplus(ctx, kids):
     ctx.open('verb', ())
@@ -662,6 +681,7 @@ cref_entry('Cref', '\\Cref{ka}', ['Gycq'])
 cref_entry('crefrange', '\\crefrange{ka}{kb}', ['Gydq', 'Gyeq'])
 
 ALL = list(CAT)
+VERB_SINGLES = ['verbdollar', 'verbbrace', 'verbclose', 'verbbslash', 'verbtilde', 'verbbracket']
 
 # one representative per mechanism, for the deepest level of the enumeration
 CORE = ['group', 'unk1', 'unk2', 'textbf', 'framebox', 'href', 'LTalter', 'center', 'figure', 'tabular',
